@@ -19,6 +19,8 @@ open SharkVerif.Import SharkVerif.Import.Svm
 
 variable {V : Type}
 
+def wcfg : Cfg := { sparse := false, cls := true, dims := 0, bs := 256, allocLimit := 1000 }
+
 /-! ## LibSVM importer: memory safety -/
 
 /-- `build` never reports an out-of-bounds write when every write index is below the size -/
@@ -113,9 +115,141 @@ theorem sparse_writes_in_bounds_partial (zero : V) (labelInt : V → Option Int)
     · exact build_no_oob zero cfg recs _ _ _ false
         (fun r hr w hw => writes_lt_size recs cfg.dims hs r hr w hw) i n
 
-/-! ### witnesses: what the current code does without the hypothesis (DESIGN §7 F2) -/
+/-! ## LibSVM importer: the result is an error or a well-formed dataset -/
 
-def wcfg : Cfg := { sparse := false, cls := true, dims := 0, bs := 256, allocLimit := 1000 }
+/-- rows produced by `finish` have the allocated size as dimension and are well-formed
+when every write index is below the size and the stored indices increase -/
+theorem finish_wf (zero : V) (cfg : Cfg) (size : Nat) (wss : List (List (Nat × V))) (batches : List Nat)
+    (labels : Labels V) (n : Nat) (d : DataSet V)
+    (hn : wss.length = n)
+    (hb : batches.foldl (· + ·) 0 = n)
+    (hbs : cfg.bs ≠ 0 → ∀ b ∈ batches, b ≤ cfg.bs)
+    (hw : ∀ ws ∈ wss, (∀ w ∈ ws, w.1 < size) ∧ strictlyIncreasing (ws.map (·.1)) = true)
+    (hl : match labels with
+          | .cls ls => ls.length = n
+          | .reg ls => ls.length = n ∧ ∀ l ∈ ls, l.length = 1
+          | .none => False)
+    (h : finish zero cfg size size wss batches labels = .ok d) :
+    d.wf cfg.bs = true ∧ d.rows.length = n := by
+  have hrows : ∀ r ∈ wss.map (fun ws => if cfg.sparse then Row.sparse size ws else Row.dense (denseRow zero size ws)),
+      (some r.dim == some size && r.wf) = true := by
+    intro r hr
+    obtain ⟨ws, hws, rfl⟩ := List.mem_map.mp hr
+    split
+    · have := hw ws hws
+      simp only [Row.dim, Row.wf, beq_self_eq_true, Bool.true_and, Bool.and_eq_true, List.all_eq_true,
+        decide_eq_true_eq]
+      exact ⟨fun p hp => this.1 p hp, this.2⟩
+    · simp [Row.dim, Row.wf, denseRow_length]
+  have hbatch : (cfg.bs == 0 || batches.all (fun b => decide (b ≤ cfg.bs))) = true := by
+    by_cases h0 : cfg.bs = 0
+    · simp [h0]
+    · simp only [Bool.or_eq_true, List.all_eq_true, decide_eq_true_eq]
+      exact Or.inr (hbs h0)
+  unfold finish at h
+  cases labels with
+  | none => exact absurd hl (by simp)
+  | cls ls =>
+    simp only at h hl
+    split at h
+    · simp at h
+    · simp only [Outcome.ok.injEq] at h
+      subst h
+      refine ⟨?_, by simp [hn]⟩
+      simp only [DataSet.wf, Bool.and_eq_true, List.all_eq_true, beq_iff_eq, List.length_map, decide_eq_true_eq]
+      refine ⟨⟨⟨fun r hr => by simpa using hrows r hr, by rw [hb, hn]⟩, ⟨by rw [hl, hn], fun l hl' => numberOfClasses_gt ls l hl'⟩⟩, ?_⟩
+      simpa using hbatch
+  | reg ls =>
+    simp only at h hl
+    simp only [Outcome.ok.injEq] at h
+    subst h
+    refine ⟨?_, by simp [hn]⟩
+    simp only [DataSet.wf, Bool.and_eq_true, List.all_eq_true, beq_iff_eq, List.length_map]
+    refine ⟨⟨⟨fun r hr => by simpa using hrows r hr, by rw [hb, hn]⟩, ⟨by rw [hl.1, hn], fun l hl' => by simp [hl.2 l hl']⟩⟩, ?_⟩
+    simpa using hbatch
+
+/-- **C19, LibSVM importers (repaired logic): error or well-formed dataset.**
+For every list of parsed records and every configuration the result is the library's
+exception, an allocation failure (dense vectors beyond the limit), or a dataset in which
+all elements have the dimension reported by `shape()`, sparse rows hold strictly
+increasing indices below it, class labels are below `numberOfClasses`, regression labels
+have the reported dimension, there is one element per record, the batch sizes add up to
+the element count and no batch exceeds the requested size. -/
+theorem import_wellformed_or_error_svm (zero : V) (labelInt : V → Option Int) (cfg : Cfg) (recs : List (Rec V)) :
+    match importRepaired zero labelInt cfg recs with
+    | .ok d => d.wf cfg.bs = true ∧ d.rows.length = recs.length
+    | .error => True
+    | .allocFail => True
+    | .oobWrite _ _ => False
+    | .ubEmptyMax => False := by
+  have hsafe := sparse_writes_in_bounds zero labelInt cfg recs
+  cases hres : importRepaired zero labelInt cfg recs with
+  | error => trivial
+  | allocFail => trivial
+  | oobWrite i n => exact absurd hres (hsafe.1 i n)
+  | ubEmptyMax => exact absurd hres hsafe.2
+  | ok d =>
+    simp only
+    unfold importRepaired at hres
+    split at hres
+    · simp at hres
+    · rename_i hs
+      have hs : recs.all recSorted = true := by simpa using hs
+      split at hres
+      · -- empty classification file
+        rename_i hemp
+        simp only [Outcome.ok.injEq] at hres
+        subst hres
+        have : recs = [] := by
+          simp only [Bool.and_eq_true, List.isEmpty_iff] at hemp
+          exact hemp.2
+        subst this
+        exact ⟨by simp [DataSet.wf], rfl⟩
+      · simp only at hres
+        split at hres
+        · simp at hres
+        · split at hres
+          · simp at hres
+          · rename_i labels hl
+            rcases build_eq zero cfg recs (max (maxIndexLast recs) cfg.dims) (hasZeroFirst recs) labels true
+              with h1 | ⟨j, _, h1⟩ | ⟨_, h2⟩
+            · rw [h1] at hres; simp at hres
+            · rw [h1] at hres; simp at hres
+            · rw [h2] at hres
+              simp only [if_true] at hres
+              refine finish_wf zero cfg _ _ _ labels recs.length d (by simp) (initBatches_sum _ _)
+                (fun h0 => initBatches_le _ _ (Nat.pos_of_ne_zero h0)) ?_ ?_ hres
+              · intro ws hws
+                obtain ⟨r, hr, rfl⟩ := List.mem_map.mp hws
+                exact ⟨fun w hw => writes_lt_size recs cfg.dims hs r hr w hw, writes_increasing recs hs r hr⟩
+              · cases labels with
+                | cls ls => exact labelsOf_cls_length labelInt cfg recs ls hl
+                | reg ls =>
+                  unfold labelsOf at hl
+                  split at hl
+                  · simp only [Option.map_eq_some_iff] at hl
+                    obtain ⟨l, _, hl2⟩ := hl
+                    simp at hl2
+                  · simp only [Option.some.injEq, Labels.reg.injEq] at hl
+                    subst hl
+                    exact ⟨by simp, fun l hl' => by
+                      obtain ⟨r, _, rfl⟩ := List.mem_map.mp hl'
+                      rfl⟩
+                | none =>
+                  unfold labelsOf at hl
+                  split at hl
+                  · simp only [Option.map_eq_some_iff] at hl
+                    obtain ⟨l, _, hl2⟩ := hl
+                    simp at hl2
+                  · simp at hl
+
+/-- non-vacuity: the `ok` branch is inhabited, with a dataset that has elements -/
+example : (match importRepaired (0 : Nat) (fun v => some (v : Int)) wcfg
+    [⟨1, [(1, 7), (3, 8)]⟩, ⟨0, [(2, 9)]⟩] with
+    | .ok d => d.wf 256 && d.rows.length == 2
+    | _ => false) = true := by decide
+
+/-! ### witnesses: what the current code does without the hypothesis (DESIGN §7 F2) -/
 
 /-- `"1 3:1 1:1\n"`: dimension 1 is taken from the last index, index 3 is written at 2 -/
 theorem sparse_writes_oob_witness_unsorted :
